@@ -53,10 +53,11 @@ type errEngine struct {
 	busy     map[*ssa.Function]bool
 	osMap    map[*ssa.Function]bool // name→OS-path mapping functions
 	provBusy map[string]bool
+	provStack map[ssa.Value]bool
 }
 
 func newErrEngine(p *load.Program) *errEngine {
-	e := &errEngine{p: p, sum: map[*ssa.Function]map[string]errAbs{}, busy: map[*ssa.Function]bool{}, osMap: map[*ssa.Function]bool{}, provBusy: map[string]bool{}}
+	e := &errEngine{p: p, sum: map[*ssa.Function]map[string]errAbs{}, busy: map[*ssa.Function]bool{}, osMap: map[*ssa.Function]bool{}, provBusy: map[string]bool{}, provStack: map[ssa.Value]bool{}}
 	e.fsI = stdIface(p, "io/fs", "FS")
 	e.fileI = stdIface(p, "io/fs", "File")
 	for _, n := range []string{"toOSPath", "rootedPath"} {
@@ -92,6 +93,15 @@ func (e *errEngine) prov(fn *ssa.Function, v ssa.Value, depth int) strProv {
 	if v == nil || depth > 30 {
 		return "unknown"
 	}
+	if e.provStack[v] {
+		return "" // cyclic definition (loop-carried slice/string): contributes nothing new
+	}
+	e.provStack[v] = true
+	defer delete(e.provStack, v)
+	return e.prov1(fn, v, depth)
+}
+
+func (e *errEngine) prov1(fn *ssa.Function, v ssa.Value, depth int) strProv {
 	if s, ok := ssax.ConstString(v); ok {
 		return strProv("const:" + s)
 	}
@@ -620,8 +630,23 @@ func (e *errEngine) callAbs(fn *ssa.Function, c *ssa.Call, k int, depth int) []e
 		}
 		var out []errAbs
 		for _, a := range e.abs(fn, c.Call.Args[ei], depth+1) {
-			if a.Kind != "typed" && a.Kind != "iface" {
+			if a.Kind == "nil" {
 				out = append(out, a)
+				continue
+			}
+			if a.Kind != "typed" && a.Kind != "iface" {
+				if returnsParam(callee, callee.Params[ei]) || len(rebuilt) == 0 {
+					out = append(out, a)
+					continue
+				}
+				// wrapped into whatever the function builds from its other arguments
+				for _, o := range rebuilt {
+					na := errAbs{Kind: "typed", T: o.T, Desc: a.Desc, Pos: a.Pos}
+					for _, on := range o.NS {
+						na.NS = append(na.NS, e.substProv(fn, c, on, depth))
+					}
+					out = append(out, na)
+				}
 				continue
 			}
 			wantT := a.T
@@ -632,8 +657,26 @@ func (e *errEngine) callAbs(fn *ssa.Function, c *ssa.Call, k int, depth int) []e
 				}
 			}
 			matched := false
+			cands := rebuilt
+			same := false
 			for _, o := range rebuilt {
-				if o.T != wantT {
+				if o.T == wantT {
+					same = true
+				}
+			}
+			asserted := assertsType(callee, callee.Params[ei], wantT)
+			switch {
+			case asserted && same:
+				// rebuilt as the same type
+			case asserted:
+				wantT = "" // converted into whatever the function builds
+			case returnsParam(callee, callee.Params[ei]):
+				cands = nil // not looked at: passed through
+			default:
+				wantT = ""
+			}
+			for _, o := range cands {
+				if wantT != "" && o.T != wantT {
 					continue
 				}
 				matched = true
@@ -785,6 +828,7 @@ func (e *errEngine) translator(fn *ssa.Function) (string, int) {
 	if !okAll || !(asserts || callsTranslator) {
 		return "", 0
 	}
+
 	kind := "os"
 	if nstr >= 2 {
 		kind = "mount"
@@ -1108,4 +1152,53 @@ func rebuiltFromOld(fn *ssa.Function, errP *ssa.Parameter) bool {
 	}
 	rebuiltMemo[fn] = res
 	return res
+}
+
+// assertsType: fn type-asserts its error parameter to *T (T = "PathError" | "LinkError").
+func assertsType(fn *ssa.Function, errP *ssa.Parameter, T string) bool {
+	found := false
+	ssax.Instrs(fn, func(ins ssa.Instruction) {
+		if ta, ok := ins.(*ssa.TypeAssert); ok && ta.X == ssa.Value(errP) {
+			if n := namedOfPtr(ta.AssertedType); n != nil && n.Obj().Name() == T {
+				found = true
+			}
+		}
+	})
+	return found
+}
+
+func returnsParam(fn *ssa.Function, errP *ssa.Parameter) bool {
+	for _, r := range ssax.Returns(fn) {
+		var has func(v ssa.Value, d int) bool
+		has = func(v ssa.Value, d int) bool {
+			if d > 6 {
+				return false
+			}
+			if v == ssa.Value(errP) {
+				return true
+			}
+			if ph, ok := v.(*ssa.Phi); ok {
+				for _, e := range ph.Edges {
+					if has(e, d+1) {
+						return true
+					}
+				}
+			}
+			if u, ok := v.(*ssa.UnOp); ok {
+				if a, ok := u.X.(*ssa.Alloc); ok {
+					stores, _ := ssax.CellStores(a)
+					for _, st := range stores {
+						if has(st.Val, d+1) {
+							return true
+						}
+					}
+				}
+			}
+			return false
+		}
+		if has(resolveSpilled(r.Results[0], r), 0) {
+			return true
+		}
+	}
+	return false
 }
